@@ -265,7 +265,8 @@ def c20f(ctx):
         fn = ctx.fn(qn)
         g = fn.cfg
         stores = g.find(lambda x: is_call(x, 'self.cache.store_tile', 'self.cache.store_tiles'))
-        ok = bool(stores) and all(g.guarded(n, lambda at: at.op is None and unparse(at.expr) == flag, True) for n, x in stores)
+        ok = bool(stores) and all(g.guarded(n, lambda at: at.op is None and unparse(at.expr).endswith('.cacheable') and not unparse(at.expr).startswith('self.'), True)
+                                  for n, x in stores)
         ctx.check(ok, '%s:store-only-cacheable' % fn.short, 'the store is guarded by `%s`' % flag, fn,
                   fail='an uncacheable result (an error image produced by on_error handling) is written to the cache, or cacheable ones are not')
     fn = ctx.fn(T + ':TileCreator._create_single_tile')
